@@ -103,9 +103,15 @@ class C03(L1Prop):
         kinds = list(KINDS)
         pairs = [(a, b) for i, a in enumerate(kinds) for b in kinds[i:]]
         relevant_pairs = [p for p in pairs if not (p[0].startswith("G") and p[1].startswith("G"))] + [("GCVlatest", "GS")]
-        scheds2 = [list(s) for n in (0, 2, 3, 4, 5) for s in itertools.product("01", repeat=n)] + [["0.1!1"], ["1.1!0"], ["0.2!1"], ["0", "1.1!0"]]
+        # begin-while-held probes at the start of a transaction (k = 0), inside it, and in the second
+        # and third transaction of a request (after both requests have run their first)
+        probes = [["0.0!1"], ["1.0!0"], ["0.1!1"], ["1.1!0"], ["0", "1.1!0"], ["0", "1", "0.0!1"], ["0", "1", "0.1!1"],
+                  ["0", "1", "1.1!0"], ["0", "1", "0", "1.0!0"], ["0", "1", "0", "1", "0.1!1"],
+                  # one request is held inside a transaction while the other runs its LATER (writing) transactions
+                  ["0", "0", "1.1!0"], ["1", "1", "0.1!1"], ["0", "1.1!0", "1.1!0"], ["1", "0.1!1", "0.1!1"]]
+        scheds2 = [list(s) for n in (0, 2, 3, 4, 5) for s in itertools.product("01", repeat=n)] + probes + [["0.2!1"], ["0", "1", "0.2!1"]]
         if tier != "thorough":
-            scheds2 = [list(s) for s in itertools.product("01", repeat=4)] + [["0.1!1"], ["1.1!0"], ["0", "1.1!0"]]
+            scheds2 = [list(s) for s in itertools.product("01", repeat=4)] + probes
         k = 0
         for (a, b) in relevant_pairs:
             for mode in ("shared", "multi"):
@@ -199,9 +205,22 @@ class C03(L1Prop):
         for (o, ri, rm) in trace[i:]:
             if o.startswith("csched"):
                 notes = ri
+        def client_of(t):
+            toks = case.meta["reqs"][t].split()
+            return toks[4] if len(toks) > 4 else "?"
+        def same_client(note):
+            # `tJ-began-while-tI-open` / `tJ-entered-while-open-I+K`: transactions of DIFFERENT clients
+            # may overlap (the storage interface says they share no data); what they must not do is
+            # change the outcome, which the linearizability comparison decides
+            ts = [int(x) for x in re.findall(r"(?<![0-9a-zA-Z])t?(\d+)", note.split(":", 1)[1])]
+            cl = {client_of(t) for t in ts if t < len(case.meta["reqs"])}
+            return len(cl) <= 1
         for bad in ("LOCK-VIOLATION", "HANG", "BEGIN-ERROR"):
-            if bad in notes:
-                fails.append(f"scheduler observed {[x for x in notes.split()[1].split(',') if bad in x]} (schedule {case.meta['sched']}, requests {case.meta['group']}, {backend}/{case.meta['cmode']})")
+            hits = [x for x in (notes.split()[1].split(",") if len(notes.split()) > 1 else []) if bad in x]
+            if bad == "LOCK-VIOLATION":
+                hits = [x for x in hits if same_client(x)]
+            if hits:
+                fails.append(f"scheduler observed {hits} (schedule {case.meta['sched']}, requests {case.meta['group']}, {backend}/{case.meta['cmode']})")
         for k in range(n):
             o, ri, rm = trace[i + 1 + k]
             r = HResp(ri)
@@ -283,12 +302,15 @@ def overlap_cases(prop, rng, tier):
         "C01": [("AVlatest", "AVlatest"), ("AVnew", "AVnew")],
         "C10": [("ASv1", "ASv2"), ("ASv1", "ASv3"), ("ASv2", "ASv3"), ("ASv3", "AVlatest4")],
         "C18": [("ASv1", "ASv2"), ("ASv1", "ASv3"), ("ASv2", "ASv3")],
+        # requests of two DIFFERENT clients overlapping: neither loses anything
+        "C09": [("AVnew", "AVlatest"), ("AVnewP", "AVlatest"), ("AVnew", "ASlatest")],
     }[prop]
     scheds = [list(s) for s in itertools.product("01", repeat=4)] if tier == "thorough" else \
              [list("0011"), list("0101"), list("0110"), list("1001"), list("0001"), list("1000"), list("0100")]
     # begin-while-held probes: the second request asks for its transaction after the first has made
     # k storage calls inside its own (it must wait; if it does not, the outcome shows it)
-    scheds += [["0.1!1"], ["1.1!0"], ["0.2!1"], ["1.2!0"]]
+    scheds += [["0.1!1"], ["1.1!0"], ["0.2!1"], ["1.2!0"], ["0.0!1"], ["0", "1", "0.1!1"], ["0", "1", "1.0!0"],
+               ["0", "0", "1.1!0"], ["1", "1", "0.1!1"], ["0", "1.1!0", "1.1!0"]]
     out = []
     k = 0
     for (a, b) in groups:
@@ -315,14 +337,14 @@ def overlap_oracle(prop, case, trace, backend):
     dumps = [Dump(ri) for (o, ri, rm) in trace[start:] if o.startswith("dump ")]
     where = f"(overlap {case.meta['group']}, schedule {case.meta['sched']}, {backend})"
     acc = [(h, r) for h, r in reqs if h.route == "av" and r.status == 200]
-    if prop in ("C02", "C01"):
+    if prop in ("C02", "C01", "C09"):
         parents = [(h.cid, h.seg) for h, r in acc]
         if len(parents) != len(set(parents)):
             fails.append(f"two overlapping AddVersion requests were both accepted on the same parent {parents} {where}")
         for h, r in reqs:
             if h.route == "av" and r.status not in (200, 409):
                 fails.append(f"overlapping AddVersion answered {r.status} {where}")
-    if prop in ("C07", "C01", "C02"):
+    if prop in ("C07", "C01", "C02", "C09"):
         # every accepted version is stored and on the chain of its client
         for h, r in acc:
             found = False
